@@ -5,6 +5,7 @@ Output is a list of segments (text, origin) so the assembler can map verifier di
 to either a line of the real function ('src') or a labelled clause of the unit ('woven').
 """
 import hashlib
+import os
 import re
 
 from rstok import tokenize, norm, Tok
@@ -13,6 +14,16 @@ from units import expand, INT_BITS, UnitError
 CONST_NAMES = {"ZERO", "ONE", "MIN", "MAX", "BITS"}
 CONV_RENAMES = {"from": "v_from", "into": "v_into", "try_from": "v_try_from", "try_into": "v_try_into"}
 IA_METHODS = {"get_int", "set_int", "int_len"}
+
+
+_PINS = None
+def _loop_pins():
+    global _PINS
+    if _PINS is None:
+        import json
+        f = os.path.join(os.path.dirname(os.path.dirname(os.path.abspath(__file__))), "spec", "loopheads.json")
+        _PINS = json.load(open(f)) if os.path.exists(f) else {}
+    return _PINS
 
 
 class LostAnchor(Exception):
@@ -277,6 +288,13 @@ class Weaver:
             w.rules = sorted(rules.items())
             return w
 
+        # loops see the facts established before them (values of locals that the loop does not modify): a `let` hoisted out of a
+        # loop by a refactoring must not cost the proof its value (measured: refactoring L2). Invariants are still required for
+        # everything the loop modifies.
+        # Opt-in per unit (`loop_context: true`): as a global default it changed the outcome of two existing proofs (bvd.shr_assign, bvd.shr_ref)
+        # and Verus rejects it for loops with an `ensures` clause.
+        if getattr(unit, "loop_context", False):
+            w.segs.insert(0, Seg("#[verifier::loop_isolation(false)]\n", "glue"))
         # ---- body -----------------------------------------------------------------
         bo, bc = f.body_open, f.body_close
         ins_before = {}
@@ -312,6 +330,23 @@ class Weaver:
                 loops.append((k, m, pairs[m]))
             k += 1
         w.loops = len(loops)
+        # shape pin: the loop contracts of a unit were written for specific loop headers (`while i > 0`, `for i in 0..n`); if a header's
+        # token text differs from the one recorded in spec/loopheads.json the contract no longer addresses this loop: lost anchor
+        # (undecided), never a failed obligation (measured: refactoring H3 turned `while i > 0 {..; i -= 1}` into `for j in (0..i).rev()`)
+        heads = [" ".join(t.text for t in toks[kw:hb]) for (kw, hb, hc) in loops]
+        w.loop_heads = heads
+        if not hasattr(self, "seen_heads"):
+            self.seen_heads = {}
+        self.seen_heads.setdefault(unit.name, set()).add(tuple(heads))
+        pinned = _loop_pins().get(unit.name)
+        if pinned is not None and mode == "verify" and unit.loops:
+            want = sorted(unit.loops)
+            ok = any(all(o - 1 < len(v) and o - 1 < len(heads) and v[o - 1] == heads[o - 1] for o in want) for v in pinned)
+            if not ok:
+                o = [o for o in want if not any(o - 1 < len(v) and o - 1 < len(heads) and v[o - 1] == heads[o - 1] for v in pinned)]
+                k = (o or want)[0]
+                raise LostAnchor("unit %s: loop %d is now `%s`; its contract was written for `%s`" % (
+                    unit.name, k, (heads[k - 1] if k - 1 < len(heads) else "<absent>")[:80], (pinned[0][k - 1] if k - 1 < len(pinned[0]) else "<absent>")[:80]))
         declared = max(list(unit.loops.keys()) + [a[1] for a in unit.anchors if a[0].startswith("loop_")]
                        + [a[1][0] for a in unit.anchors if a[0].startswith("inloop_")] + [0])
         if unit.nloops is not None and unit.nloops != len(loops):
